@@ -181,6 +181,9 @@ impl Check for C06 {
             "the engine iterates std HashMaps (per-process random state): replays run the case 32 times and report the union".into(),
         ]
     }
+    fn devopt_scale(&self) -> Option<f64> {
+        Some(0.1)
+    }
     fn explore(&self, cli: &Cli, st: &mut Stats) {
         let nthreads = cli.threads;
         // ---- exhaustive
